@@ -22,6 +22,8 @@ pub enum Kind {
     SignCrypt,
     /// time lock: sealed under `a`, ciphertext label `b`, opened with a signature under `c`
     TimeLock,
+    /// partial signature made under `a` (Basic / Pop), presented with label `b`, verified against the key share
+    Share,
     /// the tag constants: single tag `i` (a.idx) or pair
     Tag(usize),
     TagPair(usize, usize),
@@ -92,8 +94,11 @@ impl<C: Suite> Model for M05<C> {
     }
     fn init(&self) -> Vec<St> {
         let mut v = vec![];
-        for kind in [Kind::Sig, Kind::SigAsPop, Kind::PopAsSig, Kind::Pok, Kind::PokTs, Kind::SignCrypt, Kind::TimeLock] {
+        for kind in [Kind::Sig, Kind::SigAsPop, Kind::PopAsSig, Kind::Pok, Kind::PokTs, Kind::SignCrypt, Kind::TimeLock, Kind::Share] {
             for a in SCHEMES {
+                if kind == Kind::Share && a == Scheme::Aug {
+                    continue;
+                }
                 for k in 0..self.sks.len() {
                     for m in 0..self.msgs.len() {
                         if matches!(kind, Kind::SigAsPop | Kind::PopAsSig) && m > 0 {
@@ -112,7 +117,7 @@ impl<C: Suite> Model for M05<C> {
     fn actions(&self, st: &St) -> Vec<Act> {
         let mut a = vec![];
         match st.kind {
-            Kind::Sig | Kind::Pok | Kind::PokTs | Kind::SignCrypt | Kind::TimeLock => {
+            Kind::Sig | Kind::Pok | Kind::PokTs | Kind::SignCrypt | Kind::TimeLock | Kind::Share => {
                 if st.b == st.a {
                     for b in SCHEMES {
                         if b != st.a {
@@ -169,6 +174,29 @@ impl<C: Suite> Model for M05<C> {
             Kind::Sig => {
                 let sig = sk.sign(lib_scheme(st.a), msg).unwrap();
                 Some(mk_sig::<C>(st.b, *sig.as_raw_value()).verify(&pk, msg).is_ok())
+            }
+            Kind::Share => {
+                use rand_core::SeedableRng;
+                let shares = sk.split_with_rng(2, 3, rand_chacha::ChaCha20Rng::from_seed([3u8; 32])).unwrap();
+                let ps = shares[1].sign(lib_scheme(st.a), msg).unwrap();
+                let pks = shares[1].public_key().unwrap();
+                let raw = *ps.as_raw_value();
+                let relabelled = match st.b {
+                    Scheme::Basic => SignatureShare::<C>::Basic(raw),
+                    Scheme::Aug => SignatureShare::<C>::MessageAugmentation(raw),
+                    Scheme::Pop => SignatureShare::<C>::ProofOfPossession(raw),
+                };
+                // also through the byte form with the tag byte rewritten
+                let mut bytes = Vec::<u8>::from(&ps);
+                bytes[0] = st.b.idx() as u8;
+                let parsed = SignatureShare::<C>::try_from(bytes.as_slice()).unwrap();
+                let v1 = relabelled.verify(&pks, msg).is_ok();
+                let v2 = pks.verify(&parsed, msg).is_ok();
+                if diag {
+                    Some(v1 && v2)
+                } else {
+                    Some(v1 || v2)
+                }
             }
             Kind::SigAsPop => {
                 let pkb = Vec::<u8>::from(&pk);
